@@ -24,13 +24,13 @@ PROP = dict(
     harness=[
         dict(name="gsfa_shrunk", pkg="./gsfa", run="^TestVerif_C06$",
              files={"gsfa/zz_verif_c06_test.go": "harness/gsfa/c06_test.go"},
-             rewrites=_shrink(2, 100), env={"VERIF_C06_MODE": "shrunk"}, timeout=900, timeout_thorough=2400),
+             rewrites=_shrink(2, 100), env={"VERIF_C06_MODE": "shrunk"}, timeout=900, timeout_thorough=2400, race=True),
         dict(name="gsfa_shrunk3", pkg="./gsfa", run="^TestVerif_C06$", thorough_only=True,
              files={"gsfa/zz_verif_c06_test.go": "harness/gsfa/c06_test.go"},
              rewrites=_shrink(3, 2), env={"VERIF_C06_MODE": "shrunk", "VERIF_C06_TAG": "3"}, timeout=900, timeout_thorough=2400),
         dict(name="gsfa_real", pkg="./gsfa", run="^TestVerif_C06$",
              files={"gsfa/zz_verif_c06_test.go": "harness/gsfa/c06_test.go"},
-             env={"VERIF_C06_MODE": "real"}, timeout=900, timeout_thorough=2400),
+             env={"VERIF_C06_MODE": "real"}, timeout=900, timeout_thorough=2400, race=True),  # -race in the thorough tier
         dict(name="linkedlog", pkg="./gsfa/linkedlog", run="^TestVerif_C06LL$",
              files={"gsfa/linkedlog/zz_verif_c06ll_test.go": "harness/gsfa/linkedlog/c06ll_test.go"},
              timeout=600, timeout_thorough=1800),
